@@ -2,7 +2,7 @@ SPECIFICATION Spec
 CONSTANTS
   Sizes = {8, 9, 16, 17, 33, 34, 65, 101, 130, 257, 300, 520, 1030}
   BigSizes = {2100}
-  DeepSizes = {2100}
+  DeepSizes = {1100}
   ModelUpTo = 70
   Export = TRUE
 INVARIANT Inv
